@@ -2,7 +2,8 @@
 """Developer tool (not a registered check): re-run the checks against every seeded change under seeded/<id>/.
 
 For each seed a scratch copy of /repo/src is made under /var/tmp, the seed's patch.diff is applied THERE (never to /repo),
-and `./check <prop> --tier quick` is run with VERIF_REPO / VERIF_BUILD pointing at the scratch copy, for the property the seed
+and `./check multi <props>` (one pipeline run, the decision of `./check <prop> --tier quick` for each property, no evidence
+written) is run with VERIF_REPO / VERIF_BUILD pointing at the scratch copy, for the property the seed
 breaks, the properties listed under "also" / "detected_by" in its meta.json, and any given with --extra.  The outcome per
 property (exit code and the first VIOLATION / UNDECIDED line) is written back to meta.json["detected_by"] with --write.
 
@@ -41,20 +42,25 @@ def run_seed(args):
                 return sid, meta, {"_": "patch does not apply: %s" % (a.stderr or a.stdout)[:200]}
         env = dict(os.environ, VERIF_REPO=scratch, VERIF_BUILD=os.path.join(scratch, "build"))
         os.makedirs(env["VERIF_BUILD"], exist_ok=True)
-        for p in props_of(meta, sid, extra):
-            c = subprocess.run([os.path.join(VERIF, "check"), p, "--tier", "quick"], cwd=VERIF, env=env, capture_output=True, text=True)
-            lines = [l for l in (c.stdout + c.stderr).splitlines() if re.match(r"VIOLATION|UNDECIDED", l)]
-            first = lines[0] if lines else ""
+        ps = props_of(meta, sid, extra)
+        c = subprocess.run([os.path.join(VERIF, "check"), "multi", ",".join(ps)], cwd=VERIF, env=env, capture_output=True, text=True)
+        for line in (c.stdout + c.stderr).splitlines():
+            m0 = re.match(r"RESULT (C\d+) exit=(\d+) :: (.*)$", line)
+            if not m0:
+                continue
+            p, code, first = m0.group(1), int(m0.group(2)), m0.group(3)
             m = re.search(r"obligations=(\S+)", first)
-            if c.returncode == 1 and m:
+            if code == 1 and m:
                 what = "VIOLATION " + m.group(1)[:300]
-            elif c.returncode == 2:
+            elif code == 2:
                 what = "undecided (exit 2): " + re.sub(r"^UNDECIDED property=\w+: ", "", first)[:300]
-            elif c.returncode == 0:
+            elif code == 0:
                 what = "quiet (exit 0)"
             else:
-                what = "exit %d %s" % (c.returncode, first[:200])
+                what = "exit %d %s" % (code, first[:200])
             res[p] = what
+        for p in ps:
+            res.setdefault(p, "no result: %s" % (c.stdout + c.stderr)[-200:])
     finally:
         shutil.rmtree(scratch, ignore_errors=True)
     return sid, meta, res
